@@ -1083,8 +1083,11 @@ impl<'a, M: Matcher, W: WriteColor> StandardImpl<'a, M, W> {
             }
         } else if self.config().per_match {
             for &m in self.sunk.matches() {
+                // The whole line is printed for each match, so the offset
+                // is the line's. (Only --only-matching prints the offset of
+                // the match itself.)
                 self.write_prelude(
-                    self.sunk.absolute_byte_offset() + m.start() as u64,
+                    self.sunk.absolute_byte_offset(),
                     self.sunk.line_number(),
                     Some(m.start() as u64 + 1),
                 )?;
